@@ -9,6 +9,11 @@ NAMES = ["a", "b", "c", "xs", "d", "s", "f", "g", "obj", "os", "n"]
 ATTRS = ["x", "y", "name", "real", "path", "append"]
 STRS = ["", "a", "it's", 'say "hi"', "back\\slash", "tab\there", "nl\nx", "café", "中文", "\U0001f600",
         "{brace}", "%d", "'\"", "\\n", "\x00\x7f", " "]
+# every ordered pair of the characters an escaping routine has to treat specially (a backslash before a quote,
+# a quote before a backslash, doubled backslashes, ...), and a few triples
+_SPECIAL = ["\\", "'", '"', "{", "}", "\n", "a", "é"]
+STRS += [x + y for x in _SPECIAL for y in _SPECIAL if x + y not in STRS]
+STRS += ["\\\\'", "C:\\'quoted'", "\\'\\\"", "'\\", "x\\\\\"y", "\\\\n"]
 INTS = [0, 1, 2, 7, 10, 255, 1000, 10**20]
 FLOATS = [0.0, 1.5, 2.0, 1e10, 1e-07, 1e22, 3.14]
 BINOPS = [ast.Add, ast.Sub, ast.Mult, ast.Div, ast.FloorDiv, ast.Mod, ast.Pow, ast.MatMult, ast.BitOr, ast.BitAnd,
